@@ -32,6 +32,9 @@ def run(chk: Check):
         raise MachineryError("the non-strict acceptance rule should be refuted on finite chains")
     chk.note(f"non-strict rule u <= alpha on finite chains: {r.error}")
     traces = [t for res in parallel.run_jobs("harness.proposals_driver", "run", P.jobs(chk.quick)) for t in res]
+    # one kernel object bound to another model of the same state layout in between (eager)
+    for sd in range(2 if chk.quick else 8):
+        traces += P.rebind_traces(chk.seed + sd)
 
     def nontrivial(t):
         inner = [e for e in t["ev"] if e["ev"] == "moved" and e["acc"] not in ("0.0", "1.0")]
